@@ -57,7 +57,9 @@ let mismatches : (string, int) Hashtbl.t = Hashtbl.create 16
 let stats : (string, int) Hashtbl.t = Hashtbl.create 64
 let samples : (string, string list) Hashtbl.t = Hashtbl.create 16
 let bump ?(by=1) k = Hashtbl.replace stats k (by + (try Hashtbl.find stats k with Not_found -> 0))
+let total_mismatches = ref 0
 let mismatch (tag:string) (detail:string) =
+  incr total_mismatches;
   let c = try Hashtbl.find mismatches tag with Not_found -> 0 in
   Hashtbl.replace mismatches tag (c+1);
   if c < 5 then Printf.printf "MISMATCH %s %s\n" tag detail
